@@ -38,6 +38,7 @@ class FakeSocket:
         self.fd = FD_BASE + net.fd_counter
         self.closed = False
         self.rx: collections.deque[Any] = collections.deque()
+        self.rx_consumed = 0      # bytes handed to the reader so far
         self.connect_state: str | None = None
         self.so_error = 0
         self.address: Any = None
@@ -124,6 +125,7 @@ class FakeSocket:
         else:
             self.rx.popleft()
         self.net.sim.log("sock_recv", self.fd, len(item))
+        self.rx_consumed += len(item)
         return bytes(item)
 
     def recv_into(self, buf: Any) -> int:
